@@ -34,6 +34,9 @@ type recShape struct {
 	Enc   byte `json:"enc"`   // ID string encoding 0..3 (full records)
 	NChar int  `json:"nchar"` // ID string characters
 	Pad   int  `json:"pad"`   // extra bytes after the ID string (records may be longer than needed)
+	// Res: the reserved bit 5 of the type/length byte is set (43.1: bits 4:0 are
+	// the length; reserved bits are ignored on reading)
+	Res bool `json:"res,omitempty"`
 }
 
 type c14Scn struct {
@@ -43,6 +46,9 @@ type c14Scn struct {
 	// TimeBase, if non-zero, is the repository's most recent addition timestamp
 	// at the start (seconds; values around 2^31 are the year 2038)
 	TimeBase uint32 `json:"timebase,omitempty"`
+	// EraseBase, if non-zero, is the most recent erase timestamp (default: 1000 s
+	// before the addition timestamp)
+	EraseBase uint32 `json:"erasebase,omitempty"`
 	// BMCOutSeq, if non-zero, is where the BMC's own session sequence numbering
 	// stands when the retrieval starts
 	BMCOutSeq uint32 `json:"bmc_out_seq,omitempty"`
@@ -96,6 +102,9 @@ func buildRecord(id uint16, s recShape, seed byte) []byte {
 		body[18] = seed % 12
 		body[25] &= 0x07
 		body[42] = s.Enc<<6 | byte(s.NChar)
+		if s.Res {
+			body[42] |= 0x20
+		}
 		body = append(body, idStringBytes(s.Enc, s.NChar, seed)...)
 		body = append(body, pattern(s.Pad, 0xEE, 0)...)
 	default:
@@ -109,6 +118,9 @@ func c14Repo(scn c14Scn) *ref.Repo {
 	r := &ref.Repo{LastAdd: 5000, LastErase: 4000}
 	if scn.TimeBase != 0 {
 		r.LastAdd, r.LastErase = scn.TimeBase, scn.TimeBase-1000
+	}
+	if scn.EraseBase != 0 {
+		r.LastErase = scn.EraseBase
 	}
 	for i, s := range scn.Recs {
 		r.Recs = append(r.Recs, ref.SDRRec{ID: scn.IDs[i], Data: buildRecord(scn.IDs[i], s, byte(i+1))})
@@ -322,6 +334,7 @@ func runC14(r *rep.R) {
 	}
 	shapes = append(shapes, recShape{Type: 1, Enc: 1, NChar: 1}, recShape{Type: 1, Enc: 2, NChar: 1}, recShape{Type: 1, Enc: 3, NChar: 16, Pad: 0}, recShape{Type: 1, Enc: 2, NChar: 21}, recShape{Type: 1, Enc: 3, NChar: 6, Pad: 3})
 	// bodies at and next to the 64-byte maximum
+	shapes = append(shapes, recShape{Type: 1, Enc: 3, NChar: 8, Res: true}, recShape{Type: 1, Enc: 1, NChar: 4, Pad: 19, Res: true}, recShape{Type: 1, Enc: 2, NChar: 0, Pad: 21, Res: true})
 	shapes = append(shapes, recShape{Type: 1, Enc: 3, NChar: 16, Pad: 4}, recShape{Type: 1, Enc: 3, NChar: 16, Pad: 5}, recShape{Type: 1, Enc: 1, NChar: 31, Pad: 5})
 	shapes = append(shapes, recShape{Type: 0x02}, recShape{Type: 0x11}, recShape{Type: 0x12}, recShape{Type: 0xC0})
 	layouts := func(n int) [][]uint16 {
@@ -339,7 +352,7 @@ func runC14(r *rep.R) {
 	}
 	var idx int64
 	run := func(scn c14Scn, bound int) {
-		tag := fmt.Sprintf("c14/%v/%v/%v/%x/%x", scn.Recs, scn.IDs, scn.Faults, scn.TimeBase, scn.BMCOutSeq)
+		tag := fmt.Sprintf("c14/%v/%v/%v/%x/%x/%x", scn.Recs, scn.IDs, scn.Faults, scn.TimeBase, scn.BMCOutSeq, scn.EraseBase)
 		e := &env.Explorer{R: r, Bound: bound, Scenario: tag, Idx: &idx,
 			Run: func(ch *env.Chooser) any { return c14Exec(scn, ch) }}
 		e.Check = func(ch *env.Chooser, obs any) {
@@ -425,6 +438,16 @@ func runC14(r *rep.R) {
 	for _, tb := range []uint32{0x7FFFFFFF, 0x80000005} {
 		scn := faultRepos[1]
 		scn.TimeBase = tb
+		run(scn, 1)
+	}
+	// a modification that brings a timestamp to FFFFFFFFh, the value a BMC without
+	// a valid clock reports ("unspecified"): still a change of the timestamp
+	for _, fr := range faultRepos[:3] {
+		scn := fr
+		scn.TimeBase = 0xFFFFFFFE
+		run(scn, 1)
+		scn = fr
+		scn.TimeBase, scn.EraseBase = 0x80000005, 0xFFFFFFFE
 		run(scn, 1)
 	}
 	for _, out := range []uint32{0xFFFFFFFA, 0xFFFFFFFF} {
